@@ -993,4 +993,14 @@ def rule_flow_err(ctx):
     ctx.add("FLOW-ERR", "head_interval:expect-guarded", len(exps) == 2 and guarded == 2, ctx.site(b), "both `expect`s on p2f in natural_head_interval sit under `if is_term_regular_of_second_kind(t)` (whose operands are regular of the first kind, so p2f accepts them)")
 
 
-RULES = [rule_regularity, rule_p2f, rule_int_vars, rule_templates, rule_mu, rule_fresh, rule_sort_sites, rule_flow_err]
+def rule_printed_as_read(ctx):
+    """natural / mu build nested integer terms (tau* does not): what the user reads is the default printer's text, which must keep the
+    parentheses the grammar needs (C15's precedence and dispatch obligations)"""
+    from . import c15
+    sub = type(ctx)(ctx.prop, ctx.tier, ctx.facts)
+    c15.rule_precedence(sub)
+    c15.rule_dispatch(sub)
+    ctx.obls.extend(o for o in sub.obls if o["key"].startswith("PRN-P:"))
+
+
+RULES = [rule_regularity, rule_p2f, rule_int_vars, rule_templates, rule_mu, rule_fresh, rule_sort_sites, rule_flow_err, rule_printed_as_read]
